@@ -205,6 +205,13 @@ func (img *PageImage) ToPNG() ([]byte, error) {
 			return nil, fmt.Errorf("failed to decode JPEG: %w", err)
 		}
 	} else {
+		// Width and Height come from the file: refuse dimensions the pixel data
+		// cannot back before any buffer is allocated for them. Every raw layout
+		// needs at least one bit per pixel.
+		if img.Width <= 0 || img.Height <= 0 || img.Width > len(img.Data)*8/img.Height {
+			return nil, fmt.Errorf("image dimensions %dx%d do not match %d bytes of pixel data", img.Width, img.Height, len(img.Data))
+		}
+
 		// Handle raw pixel data based on color space
 		switch img.ColorSpace {
 		case "DeviceGray", "CalGray", "ICCBased":
